@@ -1,4 +1,6 @@
 """C06: nothing downstream of a failed call runs; the raised error names a real failure."""
+import collections
+
 import core
 import engine_corr
 import planlevel
@@ -10,6 +12,9 @@ TRUSTED_BASE = ["harness/detsched.py, harness/engine_corr.py, harness/planlevel.
 
 
 def run(ctx):
+    import c04
+    c04.outcome_under_every_progress(ctx)      # a failing call makes run RAISE whatever progress display is attached
+    retry_across_calls(ctx)
     implicit_call_failures(ctx)
     failing_call_without_cwd(ctx)
     engine_corr.campaign(ctx, {"C06"})
@@ -196,3 +201,83 @@ def failing_call_without_cwd(ctx):
         if oc != "callerror":
             ctx.fail("no-cwd", "a call fails while the working directory no longer exists (removed %s): run %s instead of raising CallError for the call with its ValueError" % (when, oc),
                      {"cwd_removed": when, "outcome": oc})
+
+
+
+def retry_across_calls(ctx):
+    """retry=n (an int or a user decorator) over plans in which SEVERAL calls go through it - the same function object used by several
+    calls, earlier calls that fail once and then succeed, earlier calls that exhaust their attempts while the run goes on: every failing
+    call still fails the run with its own last exception, nothing downstream of it runs, and no call's failure is turned into a value."""
+    import itertools
+    uberjob = core.use_repo()
+    for retry in (2, 3):
+        for workers in (1, 3):
+            for max_errors in (0, 1, None):
+                for shape in ("flaky-then-failing", "same-function-fails-twice", "many-ok-then-failing"):
+                    attempts = collections.Counter()
+                    started = []
+
+                    def flaky(tag, fail_first):
+                        def f(*a):
+                            attempts[tag] += 1
+                            if attempts[tag] <= fail_first:
+                                raise ValueError("%s attempt %d" % (tag, attempts[tag]))
+                            return tag
+                        f.__name__ = tag
+                        return f
+
+                    def always(tag):
+                        attempts[tag] += 1
+                        raise ValueError("%s attempt %d" % (tag, attempts[tag]))
+                    plan = uberjob.Plan()
+                    if shape == "flaky-then-failing":
+                        pre = [plan.call(flaky("pre%d" % i, 1)) for i in range(3)]
+                        bad = plan.call(always, "bad")
+                        for q in pre:
+                            plan.add_dependency(q, bad)
+                        expected_fail_tags = {"bad"}
+                    elif shape == "same-function-fails-twice":
+                        first = plan.call(always, "first")
+                        bad = plan.call(always, "bad")
+                        if max_errors == 0:
+                            expected_fail_tags = {"first", "bad"}      # whichever runs first fails the run
+                        else:
+                            expected_fail_tags = {"first", "bad"}
+                    else:
+                        pre = [plan.call(flaky("ok%d" % i, 0)) for i in range(6)]
+                        bad = plan.call(always, "bad")
+                        for q in pre:
+                            plan.add_dependency(q, bad)
+                        expected_fail_tags = {"bad"}
+                    after = plan.call(lambda v: started.append("after") or v, bad)
+                    outputs = [first, after] if shape == "same-function-fails-twice" else after
+                    ctx.case(("retry-across-calls", retry, workers, max_errors, shape))
+                    try:
+                        res = core.call_watched(lambda: uberjob.run(plan, output=outputs, retry=retry, max_workers=workers, max_errors=max_errors, progress=None), timeout=30)
+                        oc = "returned %r" % (res,)
+                        cause = None
+                    except uberjob.CallError as e:
+                        oc, cause = "callerror", e.__cause__
+                    except core.Hang:
+                        oc, cause = "did not return within 30 s", None
+                    except BaseException as e:      # noqa
+                        oc, cause = "raised %s" % type(e).__name__, None
+                    problems = []
+                    if oc != "callerror":
+                        problems.append("run %s instead of raising CallError" % oc)
+                    elif not (isinstance(cause, ValueError) and str(cause).split()[0] in expected_fail_tags and str(cause).endswith("attempt %d" % retry)):
+                        problems.append("the error chains %r, not the last attempt (attempt %d) of a call that failed" % (cause, retry))
+                    if started:
+                        problems.append("the call downstream of the failing call was started")
+                    over = {t: n for t, n in attempts.items() if n > retry}
+                    if over:
+                        problems.append("calls attempted more than retry=%d times: %r" % (retry, over))
+                    if oc == "callerror" and attempts["bad"] not in (0, retry) and not (shape == "same-function-fails-twice" and max_errors == 0 and workers > 1):
+                        problems.append("the failing call was attempted %d times, not %d" % (attempts["bad"], retry))
+                    if oc.startswith("did not return"):
+                        ctx.fail("retry-across-calls", "retry=%d, max_workers=%d, max_errors=%r, %s: run did not return within 30 s (a call is retried for ever); attempts so far: %r"
+                                 % (retry, workers, max_errors, shape, dict(attempts)), {"retry": retry, "max_workers": workers, "max_errors": max_errors, "shape": shape})
+                        return
+                    if problems:
+                        ctx.fail("retry-across-calls", "retry=%d, max_workers=%d, max_errors=%r, %s: %s" % (retry, workers, max_errors, shape, "; ".join(problems)),
+                                 {"retry": retry, "max_workers": workers, "max_errors": max_errors, "shape": shape, "attempts": dict(attempts)})
